@@ -50,4 +50,40 @@ example : Cseg.mostFrequent [9, 3, 3, 3, 3, 9, 9, 9] = 3 := by decide
 theorem stride_is_first_voxel (f : Arr3) (fz fy fx z y x : Nat) :
     stride f fz fy fx z y x = f (z * fz) (y * fy) (x * fx) := rfl
 
+/-- the method may be spelled `auto` (the commands' default): for an image it builds exactly what `average` builds
+    and otherwise what `stride` builds, WITH THE SAME OPTIONS … -/
+theorem auto_selects_the_named_method_with_the_same_options (ty : String) (o : Option Int) :
+    getDownscaler "auto" ty o = getDownscaler (if ty = "image" then "average" else "stride") ty o := by
+  by_cases h : ty = "image" <;> simp [getDownscaler, h]
+
+/-- … so whichever spelling selects averaging, the voxel computed is the averaging model's with the CALLER'S
+    outside value (to which `average_is_block_mean` and `average_rounds_half_even` then apply): the option is
+    never dropped on the way to the downscaler -/
+theorem selected_average_uses_the_outside_value (m ty : String) (o : Option Int)
+    (h : m = "average" ∨ (m = "auto" ∧ ty = "image"))
+    (t : Conv.Ty) (f : Arr3) (e : Ext) (fz fy fx z y x : Nat) :
+    (getDownscaler m ty o).map (fun s => s.voxel t f e fz fy fx z y x) =
+      some (average t f e o fz fy fx z y x) := by
+  rcases h with h | ⟨h1, h2⟩
+  · subst h; simp [getDownscaler, Sel.voxel]
+  · subst h1; subst h2; simp [getDownscaler, Sel.voxel]
+
+/-- every accepted name selects the statistic it names, and nothing else is accepted -/
+theorem selection_is_by_name (m ty : String) (o : Option Int) :
+    (getDownscaler m ty o).isSome ↔ m = "auto" ∨ m = "average" ∨ m = "majority" ∨ m = "stride" := by
+  unfold getDownscaler
+  by_cases h0 : m = "auto"
+  · subst h0; by_cases h : ty = "image" <;> simp [h]
+  · by_cases h1 : m = "average"
+    · subst h1; simp
+    · by_cases h2 : m = "majority"
+      · subst h2; simp
+      · by_cases h3 : m = "stride"
+        · subst h3; simp
+        · simp [h0, h1, h2, h3]
+
+example : getDownscaler "auto" "image" (some 255) = some (.average (some 255)) := by decide
+example : getDownscaler "auto" "segmentation" (some 255) = some .stride := by decide
+example : getDownscaler "nearest" "image" none = none := by decide
+
 end NgVerif.Props.C07
